@@ -9,6 +9,11 @@ SwUsDef == {R(-3), R(-1), Zero, Half, R(2)}
 EuRhosDef == {One, R(4)}
 EuUsDef == {R(-2), Zero, One}
 EuCsDef == {Half, One}
+SwCsWide == {Q(1, 4), Half, One, R(2), R(3)}
+SwUsWide == {R(-3), R(-2), R(-1), Zero, Half, One, R(2), R(3)}
+EuRhosWide == {Q(1, 4), One, R(4)}
+EuUsWide == {R(-2), R(-1), Zero, One, R(2)}
+EuCsWide == {Half, One, Q(3, 2)}
 SwSt == [rho : {One}, u : SwUs, c : SwCs]
 EuSt == [rho : EuRhos, u : EuUs, c : EuCs]
 St(m) == IF m = "sw" THEN SwSt ELSE EuSt
